@@ -131,7 +131,9 @@ theorem cond_security :
     Cond.IsBanned = ["!exists", "record.isExpired()"] ∧
     Cond.IsAllowed = ["m.isInList(ip, m.whitelist)", "record := m.findInList(ip, m.blacklist); record != nil",
       "record.isExpired()"] ∧
-    Cond.VerifyResponse = ["err != nil"] := by decide
+    Cond.VerifyResponse = ["err != nil"] ∧
+    Cond.banIP = ["duration > 0", "existing, exists := p.bannedIPs[ip]; exists && existing.ExpiresAt.IsZero() && duration > 0",
+      "duration > 0"] := by decide
 
 /-- side conditions on the regenerated constants used by `recordFailure` -/
 theorem C03_consts : 0 < security.DefaultMaxFailures ∧ security.DefaultMaxFailures ≤ security.DefaultPermanentBanAt := by
@@ -231,6 +233,25 @@ theorem C03_banned_never (s : Srv) (e : Event) (c : Nat) (hc : e.conn? = some c)
     · exact Or.inr a
     · exact absurd j (no _ c' x a)
 
+/-- **a permanent ban stays.**  Once an address has a permanent ban record (20 accumulated failures, or `BanIP(ip, 0)`),
+then after ANY further history without an explicit `UnbanIP` of it — in particular any later temporary ban and the lapse
+of that temporary ban (`bans`), failures, successes elsewhere — the address is still banned, so by `C03_banned_never` no
+message from it is ever answered with success. -/
+theorem C03_permanent_ban_persists (s : Srv) (es : List Event) (ip : Nat)
+    (hp : s.perm ip = true) (hb : s.banned ip = true) (hno : Event.unban ip ∉ es) :
+    (runState s es).perm ip = true ∧ (runState s es).banned ip = true := by
+  induction es generalizing s with
+  | nil => exact ⟨hp, hb⟩
+  | cons e es ih =>
+    simp only [List.mem_cons, not_or] at hno
+    have sp := stepCore_spec s e
+    have hne : e ≠ .unban ip := fun h => hno.1 h.symm
+    apply ih _ _ _ hno.2
+    · exact sp.perm ip hne hp
+    · by_cases hbs : e = .bans ip
+      · exact sp.bans ip hbs hp hb
+      · exact sp.ban ip hne hbs hb
+
 /-- what an event does to the three address lists of the observer/server environment -/
 theorem track_lists (g : Env) (now nc : Nat) (e : Event) (r : RespObs) :
     (g.track now nc e r).wl = (match e with | .wl i => upd g.wl i true | .unwl i => upd g.wl i false | _ => g.wl) ∧
@@ -250,6 +271,8 @@ theorem track_lists (g : Env) (now nc : Nat) (e : Event) (r : RespObs) :
   | mal c => exact ⟨rfl, rfl, rfl⟩
   | ban i => exact ⟨rfl, rfl, rfl⟩
   | unban i => exact ⟨rfl, rfl, rfl⟩
+  | banp i => exact ⟨rfl, rfl, rfl⟩
+  | bans i => simp only [Env.track]; split <;> exact ⟨rfl, rfl, rfl⟩
   | bl i => exact ⟨rfl, rfl, rfl⟩
   | unbl i => exact ⟨rfl, rfl, rfl⟩
   | blr i => exact ⟨rfl, rfl, rfl⟩
@@ -472,6 +495,16 @@ example : (run hdr2.init [.bl 0, .fc 0 .control, .wl 0, .fc 0 .control, .unwl 0,
 /-- a failed issuance counts as a failure of the address (five of them ban it) and never authenticates -/
 example : ((run hdr2.init [.issue true, .fc 0 .control, .fc 0 .control, .fc 0 .control, .fc 0 .control, .fc 0 .control]).map
     (fun o => (o.st.conns, o.st.bans))).getLast? = some ([some ⟨false, none, none⟩, none], [true, false]) := by decide
+
+/-- a permanent ban survives a later temporary ban and its lapse; a temporary ban does not -/
+example : (run hdr2.init [.banp 0, .ban 0, .bans 0, .fc 0 .control, .ban 1, .bans 1, .fc 1 .control]).map (·.resp) =
+    [.na, .na, .na, .fail, .na, .na, .new 2] := by decide
+
+/-- the predicate rejects an observation in which a permanently banned address gets an identity after a short ban lapsed -/
+example : holds hdr2 [.banp 0, .bans 0, .fc 0 .control]
+    [⟨.na, ⟨[none, none], [none, none], [true, false], [false, false]⟩⟩,
+     ⟨.na, ⟨[none, none], [none, none], [false, false], [false, false]⟩⟩,
+     ⟨.new 2, ⟨[some ⟨true, some 2, none⟩, none], [none, none, some 0], [false, false], [false, false]⟩⟩] = false := by decide
 
 /-- the predicate is not trivially true: an observation in which the replayed response is accepted is rejected -/
 example : holds hdr2 [.hs 0 .control (.idx 0) .none, .hs 0 .control (.idx 0) (.hmac 0 (.last 0)),
